@@ -186,6 +186,12 @@ def build_class(spec, build_type, eval_expr, registry=None, bases=None):
         def __post_init__(self, _f=post[1]):
             setattr(self, _f, getattr(self, _f))
         ns['__post_init__'] = __post_init__
+    elif post and post[0] == 'raise_if_set':
+        # a validation hook that consults the record of supplied fields ("this option may not be given explicitly")
+        def __post_init__(self, _f=post[1], _e=_EXC[post[2]]):
+            if _f in self.__pane_set__:
+                raise _e(f"post-init refuses an explicit {_f}")
+        ns['__post_init__'] = __post_init__
     elif post:
         _, fname, expr, excname = post
         trig = eval_expr(expr)
